@@ -21,5 +21,8 @@ Exotic == [k : {"exotic"}, s : {"match", "async", "walrus", "decorator", "global
                                  "lambdadefault", "setcomp", "starargs", "dunder", "slicesassign", "ellipsis", "bytes", "complexnum", "genericann", "ctorcalls"},
            e : {"-"}, c : {"module"}]
 AllCells == Matrix \cup Calls \cup Methods \cup Exotic
+\* cells whose analysis goes through the builtin constructor types (list(), dict(), ... and their subscripted forms)
+CtorCells == {c \in Calls : c.s \in {"list", "dict", "set", "tuple", "str", "int", "float", "bool"}}
+             \cup {c \in Exotic : c.s \in {"genericann", "ctorcalls", "annassign"}}
 OneCell == {[k |-> "builtin", s |-> "sorted", e |-> "literal", c |-> "module"]}
 =============================================================================
